@@ -873,7 +873,11 @@ func (c *Ctx) checkT7(gate *ssa.Function) {
 		}
 	}
 	if count == nil || pad == nil || typ == nil {
-		c.violate("R6", "R6:T7:order", site, fmt.Sprintf("generic gate lacks a stage (count=%v pad=%v types=%v)", count != nil, pad != nil, typ != nil))
+		why := fmt.Sprintf("generic gate lacks a stage (count=%v pad=%v types=%v)", count != nil, pad != nil, typ != nil)
+		if pad == nil {
+			why += ": no stage extends the input list by appending explicit nil entries up to the operator's maximum (re-slicing or copying instead can present other tensors, or garbage, as the omitted optional inputs)"
+		}
+		c.violate("R6", "R6:T7:order", site, why)
 		return
 	}
 	okOrder := count.Block().Dominates(pad.Block()) && pad.Block().Dominates(typ.Block()) &&
